@@ -28,6 +28,7 @@ def main : IO UInt32 := do
   | ["model", "interval"] => loopState stdin stdout Interval.driverStep ⟨0, []⟩
   | ["model", "auxtable"] => loopState stdin stdout AuxTable.driverStep {}
   | ["model", "forest"] => loopState stdin stdout Forest.driverStep {}
+  | ["model", "index"] => loopState stdin stdout Index.driverStep {}
   | _ => IO.eprintln s!"unknown model line: {first}"; return 2
   stdout.flush
   return 0
